@@ -5,4 +5,5 @@ git -C /repo apply "$p" || exit 2
 cd /verif && timeout 3000 ./check.sh "$@" 2>&1 | grep -E "VIOLATION|KNOWN-FINDING|infrastructure|Traceback" | head -5
 rc=${PIPESTATUS[0]}
 git -C /repo checkout -- . 
+git -C /verif checkout -- evidence 2>/dev/null  # evidence of a modified tree is never kept
 echo "check_rc=$rc"
